@@ -167,3 +167,96 @@ def driver_of(b, h, blocks, bb=None, stop_named=True):
                 ic = o[1]
                 return h, blocks, {"k": "call", "name": ic.name(), "call": ic, "in": [tree(b, ic.args[0], stop_named=stop_named)] if ic.args else []}
     return h, blocks, None
+
+
+# ---------------------------------------------------------------- coverage: does a parallel / chunked iteration see its whole input?
+
+PRESERVING = {"lines", "par_lines", "collect", "deref", "deref_mut", "chunks", "par_chunks", "rchunks", "par_rchunks", "par_iter", "iter", "into_iter",
+              "into_par_iter", "par_bridge", "to_vec", "cloned", "copied", "as_slice", "as_str", "as_ref", "borrow", "to_owned",
+              "to_string", "clone", "enumerate", "from", "into", "collect_into_vec", "from_iter", "as_bytes", "split_inclusive"}
+# a `map` keeps one output per input whatever its closure does; what matters is that the closure does not itself pick a sub-range
+SUBRANGE = {"index", "index_mut", "get", "get_mut", "get_unchecked", "split_at", "split_off", "truncate", "drain", "take", "skip", "step_by",
+            "chunks_exact", "windows", "nth", "first", "last", "split_first", "split_last", "take_while", "skip_while"}
+
+
+def coverage_terminals(prog, b, op, seen, out, depth=0):
+    """walk backwards from an operand to everything it is computed from; element-preserving calls are followed through their
+    receiver, anything else is a terminal: ('doc', name) for a &str parameter, ('call', name, ln) / ('computed', ln) otherwise"""
+    pl = F.op_place(op)
+    if pl is None:
+        return
+    if any(e["k"] == "index" for e in pl["p"]):
+        out.append(("computed", "indexing", None))
+    l = pl["l"]
+    if (b.key, l) in seen or depth > 60:
+        return
+    seen.add((b.key, l))
+    for d in b.defs().get(l, []):
+        if d[0] == "arg":
+            ty = b.local_ty(l)
+            if ty.replace("&", "").replace("mut ", "").strip().startswith(("str", "alloc::string::String", "'")) or "str" == ty.strip("&"):
+                out.append(("doc", b.local_name(l), None))
+            elif b.is_closure and l == 1:
+                out.append(("capture", None, None))
+            else:
+                out.append(("param", b.local_name(l), None))
+        elif d[0] in ("assign", "partial"):
+            rv = d[3]
+            k = rv["rv"]
+            if k in ("use", "cast", "ref", "rawptr"):
+                for p2, kind in F.rv_places(rv):
+                    coverage_terminals(prog, b, {"k": "copy", "pl": p2}, seen, out, depth + 1)
+            elif k == "aggregate" and rv.get("ak") in ("tuple", "array") :
+                for o in rv["ops"]:
+                    coverage_terminals(prog, b, o, seen, out, depth + 1)
+            elif k == "aggregate" and rv.get("ak") == "adt" and not rv["ops"]:
+                pass
+            else:
+                ln = None
+                for blk in b.blocks:
+                    if blk["bb"] == d[1]:
+                        ln = blk["st"][d[2]].get("ln")
+                out.append(("computed", k + (":" + rv.get("adt", "").rsplit("::", 1)[-1] if k == "aggregate" else ""), ln))
+        elif d[0] in ("call", "partial_call"):
+            c = d[2]
+            nm = c.name()
+            if nm in PRESERVING and c.args:
+                coverage_terminals(prog, b, c.args[0], seen, out, depth + 1)
+            elif nm == "map" and len(c.args) == 2:
+                key, inner = _closure_calls(prog, b, c.args[1])
+                bad = sorted({ic.name() for x, ic in inner if ic.name() in SUBRANGE}) if key else ["<unresolved closure>"]
+                if bad:
+                    out.append(("call", "map(closure calling %s)" % ", ".join(map(str, bad)), c.ln))
+                coverage_terminals(prog, b, c.args[0], seen, out, depth + 1)
+            else:
+                out.append(("call", nm, c.ln, c.key or ""))
+
+
+
+
+def _closure_calls(prog, body, op):
+    """(closure key, [(body, call)]) for the closure passed as operand"""
+    out = []
+    pl = F.op_place(op)
+    key = None
+    if op.get("k") == "const" and op.get("closure"):
+        key = op["closure"]
+    elif pl is not None:
+        cur = pl["l"]
+        for _ in range(6):
+            d = body.single_def(cur)
+            if not d or d[0] != "assign":
+                break
+            rv = d[3]
+            if rv["rv"] == "aggregate" and rv.get("ak") == "closure":
+                key = rv["closure"]
+                break
+            nxt = rv.get("pl") or F.op_place(rv.get("op") or {})
+            if nxt is None:
+                break
+            cur = nxt["l"]
+    if key is None:
+        return None, out
+    for x in prog.family(key):
+        out.extend((x, c) for c in x.calls())
+    return key, out
